@@ -223,46 +223,27 @@ func getDebianCharWeight(r rune) int {
 	case 0:
 		return 0 // Null/missing character
 	default:
-		return int(r) // Use Unicode value for other characters
+		if unicode.IsLetter(r) {
+			return int(r) // Letters sort by their value
+		}
+		return int(r) + 256 // Everything else sorts after all letters
 	}
 }
 
-// compareDebianDigits compares digit strings numerically
+// compareDebianDigits compares digit strings numerically, as dpkg does:
+// leading zeros are insignificant and an empty run counts as zero.
 func compareDebianDigits(a, b string) int {
-	// Empty string is treated as 0
-	if a == "" && b == "" {
-		return 0
-	}
-	if a == "" {
-		return -1
-	}
-	if b == "" {
-		return 1
-	}
+	a = strings.TrimLeft(a, "0")
+	b = strings.TrimLeft(b, "0")
 
-	// Convert to integers for comparison
-	aNum, aErr := strconv.ParseUint(a, 10, 64)
-	bNum, bErr := strconv.ParseUint(b, 10, 64)
-
-	if aErr == nil && bErr == nil {
-		if aNum < bNum {
+	// Without leading zeros the longer run is the larger number.
+	if len(a) != len(b) {
+		if len(a) < len(b) {
 			return -1
 		}
-		if aNum > bNum {
-			return 1
-		}
-		return 0
-	}
-
-	// Fallback for very large numbers that don't fit in uint64.
-	// Compare by length first.
-	if len(a) < len(b) {
-		return -1
-	}
-	if len(a) > len(b) {
 		return 1
 	}
 
-	// If lengths are equal, a string comparison is correct.
+	// Equal lengths: byte order is numeric order.
 	return strings.Compare(a, b)
 }
